@@ -598,9 +598,11 @@ def run_single(pid: str, tier: str, seed: int, shard: int, nshards: int, partial
     mod = prop_module(pid)
     ctx = Ctx(pid, tier, seed, shard, nshards)
     try:
+        mod.run(ctx)
+        # saved failing inputs last: the search itself must start from a fresh process
+        # (anything the code under test remembers from earlier calls is part of what is tested)
         if shard == 0:
             run_regressions(ctx, mod)
-        mod.run(ctx)
     finally:
         ctx.cleanup()
     if partial_out:
@@ -616,6 +618,21 @@ def run_regressions(ctx: Ctx, mod):
     rdir = VERIF / 'regress' / ctx.pid
     if not rdir.is_dir() or not hasattr(mod, 'replay'):
         return
+    main = ctx
+    # a context of its own: replay() may leave per-replay state on the context
+    ctx = Ctx(main.pid, main.tier, main.seed, main.shard, main.nshards)
+    ctx._workdir = main.workdir()
+    try:
+        _run_regressions(ctx, mod, rdir)
+    finally:
+        main.evaluations += ctx.evaluations
+        main.excluded_known.update(ctx.excluded_known)
+        main.violations.extend(ctx.violations)
+        main.session_seen |= ctx.session_seen
+        main.extra['regression_inputs_replayed'] = ctx.extra.get('regression_inputs_replayed', 0)
+
+
+def _run_regressions(ctx: Ctx, mod, rdir):
     n = 0
     for f in sorted(rdir.glob('*.json')):
         try:
